@@ -36,7 +36,7 @@ def budget(tier: str) -> int:
 
 
 FAULTS = ["refuse", "slow_accept", "fin", "rst", "garbage", "bad_crc", "undecodable", "truncated", "write_error", "unencodable", "send",
-          "frame_then_fin", "fin_at_accept", "drain_error_at_connect", "slow_close"]
+          "frame_then_fin", "fin_at_accept", "drain_error_at_connect", "slow_close", "fin_with_write_error"]
 
 
 def _probe_status(gen: int, marker: int) -> bytes:
@@ -188,9 +188,20 @@ def generate(rng, index: int, tier: str) -> dict:
             tl.append({"at": t + d1 + dur, "op": "net.stall", "on": False})
             t += d1 + dur
             stale_timer = None
+        elif kind == "fin_with_write_error":
+            # the peer's FIN and a failing write land in the same loop pass: the read side sees EOF on a transport that is
+            # already closing (and leaves the reset to "whoever closed it"), the write side sees the error
+            tl.append({"at": t, "op": "net.fates", "fates": recon})
+            tl.append({"at": t - G.EPS, "op": "net.fail_write", "nth": rng.choice([1, 1, 2]), "err": rng.choice(["EPIPE", "ECONNRESET"])})
+            tl.append({"at": t, "op": "net.fin"})
+            if api:
+                tl.append({"at": t + lat, "op": "user.api", "target": ["ac", 0], "call": "set_fan_speed", "args": {"fan": rng.choice(["LOW", "HIGH", "AUTO", "MEDIUM"])}, "yields": rng.choice([0, 0, 1])})
+            else:
+                tl.append({"at": t + lat, "op": "user.send", "msg": msgs[mi], "policy": rng.choice(sendq.POLICIES), "yields": rng.choice([0, 0, 1])})
+                mi += 1
         elif kind == "write_error":
             tl.append({"at": t, "op": "net.fates", "fates": recon})
-            tl.append({"at": t, "op": "net.fail_write", "nth": rng.choice([1, 2, 3]), "err": rng.choice(["EPIPE", "ECONNRESET", "ETIMEDOUT"])})
+            tl.append({"at": t, "op": "net.fail_write", "nth": rng.choice([1, 2, 3]), "err": rng.choice(["EPIPE", "ECONNRESET", "ETIMEDOUT", "EHOSTUNREACH"])})
             for _ in range(rng.choice([1, 1, 2])):
                 if not api:
                     tl.append({"at": t + G.EPS, "op": "user.send", "msg": msgs[mi], "policy": rng.choice(sendq.POLICIES), "yields": rng.choice([0, 1])})
